@@ -436,6 +436,8 @@ def _row_count_of(v, mat: str, vec: str) -> bool:
     """v is the number of rows of the right-hand side: a_r.shape[0] / len(a_r) / len(b_r) / b_r.shape[0]."""
     if isinstance(v, tuple) and v[0] == "item" and v[2] == 0 and isinstance(v[1], tuple) and v[1][0] == "attr" and v[1][2] == "shape" and v[1][1] in (("param", mat), ("param", vec)):
         return True
+    if isinstance(v, tuple) and v[0] == "sub" and v[2] == const(0) and isinstance(v[1], tuple) and v[1][0] == "attr" and v[1][2] == "shape" and v[1][1] in (("param", mat), ("param", vec)):
+        return True
     if isinstance(v, tuple) and v[0] == "call" and v[1] == "len" and len(v[2]) == 1 and v[2][0] in (("param", mat), ("param", vec)):
         return True
     return False
@@ -464,7 +466,7 @@ def _row_domain(it, mat: str = "a_r", vec: str = "b_r") -> Optional[str]:
             if other and not mentions(a[0], lambda y: y in (("param", mat), ("param", vec))):
                 return "the bound is the row count of the left-hand side (%s)" % other[0]
             r = to_rat(a[0])
-            for cand in ((("item", ("attr", ("param", mat), "shape"), 0)), ("call", "len", (("param", vec),), (), 0)):
+            for cand in ((("item", ("attr", ("param", mat), "shape"), 0)), ("sub", ("attr", ("param", mat), "shape"), const(0)), ("call", "len", (("param", vec),), (), 0)):
                 try:
                     d = (r - to_rat(cand)).as_const()
                 except Exception:
@@ -485,16 +487,16 @@ def _row_domain(it, mat: str = "a_r", vec: str = "b_r") -> Optional[str]:
     return None
 
 
-def rule_containment_every_row(ctx: Ctx, rule: str = "containment-every-row") -> None:
-    """C03/C02: verify_polytope_containment decides every row of the right-hand side with an LP.  A row that is passed
-    over on a condition that does not involve the right-hand bounds cannot have been decided (lowering that bound
-    makes the containment false without changing the condition): definite violation; a skip that does look at the
-    bounds is not decided here."""
+def _every_row(ctx: Ctx, rule: str, key: str, callee: str, mat: str, vec: str, short: str, what_rows: str, what_done: str, assume=None, floor: int = 2) -> None:
+    """Every row of (mat, vec) is handled by a call to `callee` inside the loop (or comprehension) over the rows.
+    A row that is passed over on a condition that does not involve `vec` cannot have been handled correctly (changing
+    that row's bound changes what the row means without changing the condition): definite violation; a skip that does
+    look at the bounds is not decided here.  The loop must range over all rows."""
     prog = ctx.prog
-    key = PTL + "verify_polytope_containment"
     fi = prog.func(key)
-    ps = [p for p in Sim(prog, fi, assume=status_assume(0), loop_iters=(0, 1, 2)).paths() if p.terminal == "return"]
-    # the row loop: the loop whose body reaches linprog
+    ps = [p for p in Sim(prog, fi, assume=assume, loop_iters=(0, 1, 2)).paths() if p.terminal == "return"]
+    construct = "%s: every %s is %s" % (short, what_rows, what_done)
+    c2 = "%s: the loop ranges over every %s" % (short, what_rows)
     row_loops: Set[int] = set()
     for p in ps:
         stack: List[int] = []
@@ -506,20 +508,47 @@ def rule_containment_every_row(ctx: Ctx, rule: str = "containment-every-row") ->
                     stack.append(e["node"].lineno)
             elif e["kind"] in ("loop-body-end", "loop-continue", "loop-break") and stack:
                 stack.pop()
-            elif e["kind"] == "call" and e["callee"].endswith("linprog") and stack:
+            elif e["kind"] == "call" and e["callee"].endswith(callee) and stack:
                 row_loops.add(stack[0])
-    construct = "verify_polytope_containment: every row of the right-hand side is decided by an LP"
+    if not row_loops:
+        # comprehension form: the returned value is built by a comprehension whose element makes the call
+        comps = set()
+        for p in ps:
+            for x in walk(p.value):
+                if isinstance(x, tuple) and x and x[0] == "listcomp" and mentions(x[1], lambda y: isinstance(y, tuple) and y and y[0] in ("call", "mcall") and str(y[1]).endswith(callee)):
+                    comps.add(x)
+        if not comps:
+            ctx.cannot_decide(rule, key, construct, "could not find the loop over the rows that reaches %s" % callee)
+            return
+        for cmp_ in sorted(comps, key=repr):
+            gens = cmp_[2]
+            if len(gens) != 1:
+                ctx.cannot_decide(rule, key, construct, "comprehension with %d generators" % len(gens))
+                continue
+            it, ifs = gens[0]
+            v = _row_domain(it, mat, vec)
+            if v == "all":
+                ctx.ok(rule, key, c2)
+            elif v is None:
+                ctx.cannot_decide(rule, key, c2, "iterates over %s" % show(it, 5))
+            else:
+                ctx.violation(rule, key, c2, "iterates over %s: %s" % (show(it, 5), v), where=fi.where)
+            if not ifs:
+                ctx.ok(rule, key, construct + " (comprehension without filter)")
+            elif any(mentions(c, lambda y: y == ("param", vec)) for c in ifs):
+                ctx.cannot_decide(rule, key, construct, "rows are filtered by %s" % [show(c, 4) for c in ifs])
+            else:
+                ctx.violation(rule, key, construct, "a %s is passed over when not (%s) - a condition that does not involve %s" % (what_rows, "; ".join(show(c, 4) for c in ifs), vec), where=fi.where)
+        return
     if len(row_loops) != 1:
-        ctx.cannot_decide(rule, key, construct, "could not identify the loop over the right-hand rows (LP reached from loops at lines %s)" % sorted(row_loops))
+        ctx.cannot_decide(rule, key, construct, "could not identify the loop over the rows (%s reached from loops at lines %s)" % (callee, sorted(row_loops)))
         return
     (row_loop,) = row_loops
-    # the loop ranges over all rows of the right-hand side
     its = {e["it"] for p in ps for e in p.events if e["kind"] == "loop-iter" and e["func"] == key and e["node"].lineno == row_loop and e.get("it") is not None}
-    c2 = "verify_polytope_containment: the LP loop ranges over all rows of the right-hand side"
     if not its:
-        ctx.cannot_decide(rule, key, c2, "the loop over the right-hand rows is not a for loop")
+        ctx.cannot_decide(rule, key, c2, "the loop over the rows is not a for loop")
     for it in sorted(its, key=repr):
-        v = _row_domain(it)
+        v = _row_domain(it, mat, vec)
         if v == "all":
             ctx.ok(rule, key, c2)
         elif v is None:
@@ -550,20 +579,31 @@ def rule_containment_every_row(ctx: Ctx, rule: str = "containment-every-row") ->
                 seg.append(e)
                 continue
             n += 1
-            if not any(x["kind"] == "call" and x["callee"].endswith("linprog") for x in seg):
+            if not any(x["kind"] == "call" and x["callee"].endswith(callee) for x in seg):
                 tests = [x["test"] for x in seg if x["kind"] == "branch"]
-                looks_at_bound = any(mentions(t, lambda y: y == ("param", "b_r")) for t in tests)
+                looks_at_bound = any(mentions(t, lambda y: y == ("param", vec)) for t in tests)
                 what = "; ".join(sorted({norm(x["node"])[:70] for x in seg if x["kind"] == "branch"})) or "(unconditionally)"
                 verdicts[what] = "undecided" if looks_at_bound else "violation"
             seg = None
     for what, v in sorted(verdicts.items()):
         if v == "violation":
-            ctx.violation(rule, key, construct, "a right-hand row is passed over without an LP when: %s - a condition that does not involve the right-hand bounds b_r, so the row cannot have been decided" % what, where=fi.where)
+            ctx.violation(rule, key, construct, "a %s is passed over when: %s - a condition that does not involve the bounds %s, so the row cannot have been dealt with correctly" % (what_rows, what, vec), where=fi.where)
         else:
-            ctx.cannot_decide(rule, key, construct, "a right-hand row is passed over without an LP when: %s" % what)
+            ctx.cannot_decide(rule, key, construct, "a %s is passed over when: %s" % (what_rows, what))
     if not verdicts:
         ctx.ok(rule, key, construct + " (%d iteration paths)" % n)
-    ctx.floor("containment row iterations", n, 2)
+    ctx.floor("%s row iterations" % short, n, floor)
+
+
+def rule_containment_every_row(ctx: Ctx, rule: str = "containment-every-row") -> None:
+    """C03/C02: verify_polytope_containment decides every row of the right-hand side with an LP."""
+    _every_row(ctx, rule, PTL + "verify_polytope_containment", "linprog", "a_r", "b_r", "verify_polytope_containment", "row of the right-hand side", "decided by an LP", assume=status_assume(0))
+
+
+def rule_back_conversion_every_row(ctx: Ctx, rule: str = "matrix-roundtrip") -> None:
+    """C07: polytope_to_termlist turns every row of the matrix into a term (a row without coefficients and a negative
+    bound is what makes a list unsatisfiable; dropping it on its coefficients alone changes the meaning)."""
+    _every_row(ctx, rule, PTL + "polytope_to_termlist", "polytope_to_term", "matrix", "vector", "polytope_to_termlist", "row of the matrix", "turned into a term", floor=1)
 
 
 def _paired_relaxation(ctx: Ctx, p: PPath, key: str, vecp: str) -> Optional[Fraction]:
@@ -753,6 +793,12 @@ def rule_simplify_wiring(ctx: Ctx, rule: str = "simplify-wiring") -> None:
         ps = Sim(prog, fi, assume=status_assume(None, extra)).paths()
         ps = [p for p in ps if p.terminal == "return"]
         construct = "simplify(%s): wiring" % ("context" if with_ctx else "no context")
+        # a path that hands back the operand itself (or its copy) cannot change the meaning: only C13 cares which
+        me = ("param", fi.params[0])
+        ident = [p for p in ps if p.value == me or (isinstance(p.value, tuple) and p.value[0] == "mcall" and p.value[1] == "copy" and p.value[2] == me)]
+        ps = [p for p in ps if p not in ident]
+        if ident and not any(p.calls("reduce_polytope") for p in ident):
+            ctx.ok(rule, key, "simplify(%s): a shortcut path returns the operand unchanged" % ("context" if with_ctx else "no context"), nontrivial=False)
         if len(ps) != 1:
             ctx.cannot_decide(rule, key, construct, "%d returning paths" % len(ps))
             continue
@@ -1457,6 +1503,13 @@ def rule_kaykobad_guards(ctx: Ctx, rule: str = "kaykobad-guards") -> None:
     prog = ctx.prog
     key = PTL + "_get_kaykobad_context"
     fi = prog.func(key)
+    from .rules_kernels import reduction_sound_for_arbitrary_rows
+
+    if reduction_sound_for_arbitrary_rows(prog) is True:
+        # _context_reduction checks the sign of every multiplier itself (decided on arbitrary rows by the
+        # context-reduction analysis): a weaker row selection makes the tactic decline more often, never unsound
+        ctx.ok(rule, key, "_get_kaykobad_context: soundness does not rest on the selection guards (the reduction verifies the multipliers of whatever rows it is handed)", nontrivial=False)
+        return
     fl = Flow(fi.node)
     term_p, ctx_p, elim_p, refine_p = fi.params[0], fi.params[1], fi.params[2], fi.params[3]
 
